@@ -3188,17 +3188,23 @@ func (p *Parser) parseSet() (*SetLiteral, error) {
 		return nil, newParseError(tokstr(tok, lit), []string{"("}, pos)
 	}
 	vals := make(map[interface{}]bool)
+	negative := false
 	for {
 		tok, pos, lit = p.ScanIgnoreWhitespace()
 		if len(lit) != 0 {
 			switch tok {
 			case INTEGER, NUMBER:
 				val, _ := strconv.ParseFloat(lit, 64)
+				if negative {
+					val = -val
+				}
 				vals[val] = true
 			default:
 				vals[lit] = true
 			}
 		}
+		// a negative member is printed as `-1`: a SUB token followed by the number
+		negative = tok == SUB
 		if tok == RPAREN {
 			break
 		}
